@@ -4,9 +4,9 @@ package ion
 //
 // Streams of the shape  BVM  LST_A  $s0  LST_B  $s1  [BVM]  $s2  are built in binary and in text, where LST_A is a fixed
 // local symbol table (symbols ["p","q"]), LST_B varies over: replace / append (imports:$ion_symbol_table), 0-1 local
-// symbols (a string or a non-string gap), 0-1 import {name, version, max_id} with name from {t1, t2, zz (not in the
+// symbols (a string or a non-string gap), 0-1 import {name, version, max_id} with name from {t1, t2, t3, zz (not in the
 // catalog)}, version 1..3, max_id absent or 0/2/4; s0, s1, s2 are symbolic symbol IDs. The catalog holds t1 v1
-// [a,b,c], t1 v2 [a,b,c,d,e], t2 v1 [x,y]. The independent decoder refBinDecode (same catalog, same rules: exact
+// [a,b,c], t1 v2 [a,b,c,d,e], t2 v1 [x,y], t3 v2 [m,n] (no v1). The independent decoder refBinDecode (same catalog, same rules: exact
 // name+version, else latest version, else placeholder slots; no usable max_id and no exact match = error) says what
 // each symbol denotes; the real binary Reader and the real text Reader must agree, table structs must never surface
 // as values, and an import that the rules reject must end in an error.
@@ -19,13 +19,13 @@ type vC10LST struct {
 	maxID      int // -1 absent
 }
 
-var vC10Names = []string{"t1", "t2", "zz"}
+var vC10Names = []string{"t1", "t2", "t3", "zz"}
 
 func vC10Pick() vC10LST {
 	var l vC10LST
 	l.appendMode = vnondetBool()
 	l.local = vnondetInt(0, 2)
-	l.imp = vnondetInt(0, 3)
+	l.imp = vnondetInt(0, 4)
 	l.maxID = -1
 	if l.imp > 0 {
 		l.version = vnondetInt(1, 3)
@@ -90,6 +90,7 @@ func (l vC10LST) text() string {
 var vC10T1v1 = []string{"a", "b", "c"}
 var vC10T1v2 = []string{"a", "b", "c", "d", "e"}
 var vC10T2v1 = []string{"x", "y"}
+var vC10T3v2 = []string{"m", "n"} // only a newer version of t3 is in the catalog
 
 func H_C10_stream() {
 	text := vparam("text", 0) == 1
@@ -118,12 +119,12 @@ func H_C10_stream() {
 		bin = vCat(bin, vBVM)
 	}
 	bin = vCat(bin, []byte{0x71, s2})
-	cat := []rShared{{"t1", 1, vC10T1v1}, {"t1", 2, vC10T1v2}, {"t2", 1, vC10T2v1}}
+	cat := []rShared{{"t1", 1, vC10T1v1}, {"t1", 2, vC10T1v2}, {"t2", 1, vC10T2v1}, {"t3", 2, vC10T3v2}}
 	d, ok := refBinDecode(bin, cat)
 	vassume(!d.unsure)
 	us := d.user()
 
-	rcat := NewCatalog(NewSharedSymbolTable("t1", 1, vC10T1v1), NewSharedSymbolTable("t1", 2, vC10T1v2), NewSharedSymbolTable("t2", 1, vC10T2v1))
+	rcat := NewCatalog(NewSharedSymbolTable("t1", 1, vC10T1v1), NewSharedSymbolTable("t1", 2, vC10T1v2), NewSharedSymbolTable("t2", 1, vC10T2v1), NewSharedSymbolTable("t3", 2, vC10T3v2))
 	var r Reader
 	if text {
 		doc := "$ion_1_0 $ion_symbol_table::{symbols:[\"p\",\"q\"]} $" + vSidText(s0) + " " + l.text() + "$" + vSidText(s1) + " "
